@@ -78,10 +78,11 @@ func TestDriverIndexer(t *testing.T) {
 }
 
 type driver struct {
-	t     *testing.T
-	side  *Sidecar
-	cases *CasesFile
-	seed  uint64
+	t      *testing.T
+	side   *Sidecar
+	cases  *CasesFile
+	seed   uint64
+	stalls int // lives in which the service never got where it had to (each one is reported as a violation)
 }
 
 func (d *driver) add(kind string, chain int, w *world, views [][]txView, term string, canonical string, nontrivial bool, extra interface{}) {
@@ -144,6 +145,7 @@ func (d *driver) chainCase(ci int, r *Rng) {
 	d.indexCase(ci, r.Fork(1), w, views, canon, interesting)
 	d.mutatedCase(ci, r.Fork(2), w, canon)
 	d.svcCase(ci, r.Fork(3), w, views, canon)
+	d.svcDirected(ci, r.Fork(5), w, views, canon)
 	d.rpcCase(ci, r.Fork(4), w, views, canon, interesting)
 }
 
@@ -471,12 +473,16 @@ func (d *driver) mutatedCase(ci int, r *Rng, w *world, canon string) {
 type incSpec struct {
 	Start     int64                 `json:"node_height_at_start"`
 	End       int64                 `json:"node_height_at_end"`
-	Kill      int                   `json:"killed_after_writes"` // <0: not killed
+	Kill      int                   `json:"killed_after_writes"`      // <0: not killed
 	StartFail string                `json:"start_fails_at,omitempty"` // "Status" | "Subscribe": OnStart returns an error
 	Plan      map[int64]*heightPlan `json:"node_client_failures,omitempty"`
 }
 
-const waitLimit = 20 * time.Second
+// how long the driver waits for the service to settle; once a stall has been seen (and reported) the rest of the run
+// does not wait that long again
+var waitLimit = 20 * time.Second
+
+const maxStalls = 6
 
 // waitFor polls cond (synchronisation only; no observation depends on the clock); false = it never held.
 func waitFor(cond func() bool) bool {
@@ -517,10 +523,10 @@ type lifeObs struct {
 	emptyAtStart bool
 	killed       bool
 	startFailed  bool
-	stalled      string          // non-empty: the service never got where it had to
-	indexedOK    map[int64]bool  // heights IndexBlock accepted during this life
-	served       []servedFail    // node-client failures served during this life
-	cursor       int64           // where the documented resume rule puts the cursor
+	stalled      string         // non-empty: the service never got where it had to
+	indexedOK    map[int64]bool // heights IndexBlock accepted during this life
+	served       []servedFail   // node-client failures served during this life
+	cursor       int64          // where the documented resume rule puts the cursor
 }
 
 // runLife runs one life of the real EVMIndexerService over the (surviving) inner DB.
@@ -671,7 +677,6 @@ func (w *world) heightOfEntry(t *testing.T, e kv) int64 {
 }
 
 func (d *driver) svcCase(ci int, r *Rng, w *world, views [][]txView, canon string) {
-	t := d.t
 	n := int64(len(w.blocks))
 	earliest := int64(1)
 	switch r.Intn(10) {
@@ -718,7 +723,60 @@ func (d *driver) svcCase(ci int, r *Rng, w *world, views [][]txView, canon strin
 		}
 	}
 	incs = append(incs, incSpec{Start: start, End: n, Kill: -1})
+	d.svcHistory("CSvc", ci, r, w, views, canon, earliest, s0, incs, true)
+}
 
+// svcDirected: the history the random schedules reach only now and then, once per chain that allows it: the index holds
+// an earlier block with Ethereum txs, the node is far ahead at the restart (catch-up) or announces a burst (live loop),
+// and the node client fails for a height that holds Ethereum txs and is followed by another such block.
+func (d *driver) svcDirected(ci int, r *Rng, w *world, views [][]txView, canon string) {
+	n := int64(len(w.blocks))
+	var eh []int64
+	for bi, b := range views {
+		for _, v := range b {
+			if v.admitted() {
+				eh = append(eh, int64(bi+1))
+				break
+			}
+		}
+	}
+	if len(eh) < 3 {
+		d.side.Count("svc_directed:chain_has_fewer_than_3_blocks_with_eth_txs")
+		return
+	}
+	b := 1 + r.Intn(len(eh)-2)
+	a := r.Intn(b)
+	h0, h := eh[a], eh[b]
+	passes := []int{1, 1, 2 + r.Intn(8), 10, 11}[r.Intn(5)]
+	mode := r.Intn(3)
+	hp := &heightPlan{}
+	for i := 0; i < passes; i++ {
+		blockFails := mode == 0 || (mode == 2 && r.Chance(50))
+		hp.Block = append(hp.Block, blockFails)
+		if !blockFails {
+			hp.Results = append(hp.Results, true)
+		}
+	}
+	first := incSpec{Start: h0 - 1, End: h0, Kill: -1}
+	second := incSpec{Start: n, End: n, Kill: -1, Plan: map[int64]*heightPlan{h: hp}}
+	loop := "catch-up"
+	if r.Chance(35) {
+		second.Start = h0 // the node announces the burst h0+1..n to the running service
+		loop = "live"
+	}
+	d.side.Count(fmt.Sprintf("svc_directed:%s:failed_passes:%d", loop, passes))
+	incs := []incSpec{first, second, {Start: n, End: n, Kill: -1}}
+	d.svcHistory("CSvc-directed", ci, r, w, views, canon, 1, h0-1, incs, false)
+}
+
+// svcHistory runs the lives on the real service and checks them (model correspondence + convergence oracle).
+func (d *driver) svcHistory(kind string, ci int, r *Rng, w *world, views [][]txView, canon string, earliest, s0 int64, incs []incSpec, drawPlans bool) {
+	t := d.t
+	if d.stalls >= maxStalls {
+		d.side.Count("svc:case_skipped_after_repeated_stalls")
+		return
+	}
+	n := int64(len(w.blocks))
 	hasEth := func(h int64) bool {
 		for _, v := range views[h-1] {
 			if v.admitted() {
@@ -735,7 +793,7 @@ func (d *driver) svcCase(ci int, r *Rng, w *world, views [][]txView, canon strin
 	for j := range incs {
 		in := &incs[j]
 		// the node-client failures of this life are drawn knowing where the service will resume (the surviving DB tells)
-		if in.StartFail == "" {
+		if drawPlans && in.StartFail == "" {
 			last, err := kvindexer.LoadLastBlock(inner)
 			require.NoError(t, err)
 			cur := last
@@ -749,6 +807,8 @@ func (d *driver) svcCase(ci int, r *Rng, w *world, views [][]txView, canon strin
 		o := d.runLife(w, inner, earliest, *in)
 		obs = append(obs, o)
 		if o.stalled != "" {
+			d.stalls++
+			waitLimit = 2 * time.Second
 			d.side.Hit("C14/indexer/service-stalls", "the service did not get where it had to: "+o.stalled, map[string]interface{}{"chain": ci, "life": j, "lives": incs})
 		}
 		if j > 0 && in.Start > reached {
@@ -810,15 +870,17 @@ func (d *driver) svcCase(ci int, r *Rng, w *world, views [][]txView, canon strin
 		d.side.Count("svc:pruned_node_correspondence_only")
 	}
 	term := fmt.Sprintf("CSvc %s %s %s %s", coqChain(views), CqZi(earliest), CqList(lifeTerms), CqList(dumps))
-	d.add("CSvc", ci, w, views, term, canon+fmt.Sprint(earliest, lifeTerms), killedEarly || lagging || anyFailure, map[string]interface{}{"earliest": earliest, "lives": incs})
+	d.add(kind, ci, w, views, term, canon+fmt.Sprint(earliest, lifeTerms), killedEarly || lagging || anyFailure, map[string]interface{}{"earliest": earliest, "lives": incs})
 }
 
 // convergenceOracle compares the index after the whole history with the uninterrupted one key by key and attributes
 // every missing block to its cause.  Only two causes are known defects of the unchanged service, and each is recognised
 // by what happened to THAT height, not by what else happened in the run:
-//   (a) the height was committed while the index DB was empty and no life had got that far: a life that started with an
-//       empty DB found the node already past it (resume = node's latest height);
-//   (b) during the catch-up of some life (height <= node height at start) the node client failed 11 times for the height.
+//
+//	(a) the height was committed while the index DB was empty and no life had got that far: a life that started with an
+//	    empty DB found the node already past it (resume = node's latest height);
+//	(b) during the catch-up of some life (height <= node height at start) the node client failed 11 times for the height.
+//
 // Anything else is a violation, named after the node-client failure that was served for the missing height if there was one.
 func (d *driver) convergenceOracle(ci int, w *world, s0 int64, incs []incSpec, obs []lifeObs, final, ref []kv) {
 	t := d.t
@@ -865,8 +927,8 @@ func (d *driver) convergenceOracle(ci int, w *world, s0 int64, incs []incSpec, o
 	for _, h := range hs {
 		cause := ""
 		maxDone := s0 // highest height IndexBlock accepted in the lives before the current one
-		var firstServed *servedFail
-		firstPhase := ""
+		var lastServed *servedFail
+		lastPhase := ""
 		for j, o := range obs {
 			in := incs[j]
 			if o.startFailed {
@@ -884,12 +946,11 @@ func (d *driver) convergenceOracle(ci int, w *world, s0 int64, incs []incSpec, o
 				if f.h != h {
 					continue
 				}
-				if firstServed == nil {
-					firstServed = &o.served[k]
-					firstPhase = "live"
-					if h <= in.Start {
-						firstPhase = "catch-up"
-					}
+				// the LAST failure served for the height is the one after which the service moved on without it
+				lastServed = &o.served[k]
+				lastPhase = "live"
+				if h <= in.Start {
+					lastPhase = "catch-up"
 				}
 				if h <= in.Start {
 					nPre++
@@ -906,8 +967,8 @@ func (d *driver) convergenceOracle(ci int, w *world, s0 int64, incs []incSpec, o
 		}
 		if cause == "" {
 			switch {
-			case firstServed != nil:
-				cause = sigRpcPrefix + firstPhase + "-" + firstServed.call
+			case lastServed != nil:
+				cause = sigRpcPrefix + lastPhase + "-" + lastServed.call
 			case startFail != "":
 				cause = sigRpcPrefix + startFail
 			default:
